@@ -9,6 +9,11 @@ Operation DSL (JSON lists; `H` hint expression, `O` object expression, see `Inte
   world operations (replayed in the fresh interpreter, they create what a query talks about):
     ["defclass", name, beartyped]      class `name` (re)defined in the synthetic module `c14mod` (with @beartype or not)
     ["deffunc", fname, hintsrc, conf]  `@beartype def fname(x: <hintsrc>) -> int` defined in c14mod (decoration only)
+    ["deffunc", fname, hintsrc, conf, hintsrc2]  the same with a second parameter: `def fname(x: <hintsrc>, y: <hintsrc2>) -> int`
+                                       (one callable = one forward scope: 'IntList' and 'type[IntList]' share ONE proxy)
+    ["defgen", "GList"]                module-level user generic `class GList(list[T])` and the alias `IntList = GList[int]` in
+                                       c14mod (late-bound when it follows the deffunc whose string hints name `IntList`);
+                                       `["glist", O, ...]` is the object `GList([O, ...])`, `["clsobj", "GList", -1]` the class
     ["defself", cname, hintsrc, conf]  `@beartype class cname` in c14mod with `def m(self, x: <hintsrc>) -> int` and
                                        `def r(self, x) -> <hintsrc>` (hintsrc mentions `Self`: its meaning is the class being
                                        decorated); decoration compiles both checks, so it is also a query ("decorated" | exc)
@@ -19,6 +24,7 @@ Operation DSL (JSON lists; `H` hint expression, `O` object expression, see `Inte
     ["bear", api, H, O, conf]          api: is_bearable | die_if_unbearable | decor | th_is_bearable
     ["sub", H, H] ["thsub", H, H] ["theq", H, H]
     ["call", fname, O]                 call a function decorated earlier by a deffunc
+    ["call", fname, O, O2]             the same for a two-parameter deffunc
     ["mcall", cname, "m"|"r", O]       `cname().m(O)` / `cname().r(O)` of a class defined by a defself
     ["sbear", sname, api, H, O, conf]  api: is_bearable | die_if_unbearable | decor, called lexically INSIDE the scope
                                        `sname` (relative forward references of H, e.g. tuple['Node', int], resolve there)
@@ -39,7 +45,7 @@ import weakref
 
 MOD = 'c14mod'
 ITEM_TIMEOUT = 300          # seconds per forked item (a history is a few dozen queries)
-WORLD_OPS = ('defclass', 'deffunc', 'defself', 'defscope')
+WORLD_OPS = ('defclass', 'deffunc', 'defself', 'defscope', 'defgen')
 QUERY_OPS = ('bear', 'sub', 'thsub', 'theq', 'call', 'mcall', 'sbear')
 
 
@@ -95,12 +101,13 @@ class Interp:
         self.nprobe = 0
         # measured facts about this history (non-vacuity)
         self.stats = {'id_reuse': 0, 'id_stale_hit': 0, 'repr_collision': 0, 'checker_hit': 0, 'wrapper_hit': 0,
-                      'id_hit': 0, 'clear_by_redefinition': 0, 'ctx_switch': 0}
+                      'id_hit': 0, 'clear_by_redefinition': 0, 'ctx_switch': 0, 'generic_alias_recall': 0}
         self.ctx_seen: dict[str, set] = {}            # context-relative hint -> contexts (classes / scopes) it was asked from
         self.ids_seen: dict[int, tuple] = {}          # id(wrapper) -> (weakref, fingerprint)
         self.id_shadow: dict[tuple, tuple] = {}       # (table, ida, idb) -> `==` classes of the two hints at insertion
         self.repr_seen: dict[str, set] = {}           # repr(hint) -> class-generation fingerprints
         self.confs = None
+        self.alias_funcs: dict[str, int] = {}         # function whose string hints name the alias `IntList` -> passing calls so far
         self.reps: list = []                          # one representative hint per observed `==` class (observe mode)
 
     # -- configurations ---------------------------------------------------------------------------
@@ -170,6 +177,8 @@ class Interp:
             return self.cls(e[1], e[2])()
         if k == 'clsobj':
             return self.cls(e[1], e[2])
+        if k == 'glist':                   # instance of the user generic: GList([...]) (an `IntList` iff every item is an int)
+            return self.cls('GList', -1)([self.obj(x) for x in e[1:]])
         if k == 'list':
             return [self.obj(x) for x in e[1:]]
         if k == 'tuple':
@@ -222,11 +231,23 @@ class Interp:
         self.gens.setdefault(name, []).append(self.m.__dict__[name])
         return ob
 
-    def deffunc(self, fname, hintsrc, conf):
+    def deffunc(self, fname, hintsrc, conf, hintsrc2=None):
         ns = self.m.__dict__
         ns['__c14_conf'] = self.conf(conf)
-        src = f'@beartype(conf=__c14_conf)\ndef {fname}(x: {hintsrc}) -> int:\n    return 0\n'
+        second = f', y: {hintsrc2}' if hintsrc2 is not None else ''
+        src = f'@beartype(conf=__c14_conf)\ndef {fname}(x: {hintsrc}{second}) -> int:\n    return 0\n'
+        if 'IntList' in src:
+            self.alias_funcs[fname] = 0
         exec(compile(src, f'<{MOD}>', 'exec'), ns)
+
+    def defgen(self, name):
+        """module-level user generic and an alias of its subscription; a string hint 'IntList' decorated BEFORE this
+        operation is a forward reference whose referent is the subscripted generic `GList[int]`"""
+        ns = self.m.__dict__
+        ns.setdefault('T', self.typing.TypeVar('T'))
+        src = f'class {name}(list[T]):\n    pass\nIntList = {name}[int]\n'
+        exec(compile(src, f'<{MOD}>', 'exec'), ns)
+        self.gens.setdefault(name, []).append(ns[name])
 
     def note_ctx(self, hintkey, ctx):
         """an equal context-relative hint asked from a context other than the ones before: what C14 must survive"""
@@ -475,9 +496,16 @@ class Interp:
             obs['cached_after'] = tab is not None and key in tab
         return ans, obs
 
-    def q_call(self, fname, oe):
-        o = self.obj(oe)
-        return self.answer(lambda: self.m.__dict__[fname](o)), None
+    def q_call(self, fname, oe, oe2=None):
+        args = [self.obj(oe)] + ([self.obj(oe2)] if oe2 is not None else [])
+        a = self.answer(lambda: self.m.__dict__[fname](*args))
+        if fname in self.alias_funcs:
+            # the same proxy asked again after a passing call that reached its type[...] check: what C14 must survive
+            if self.alias_funcs[fname]:
+                self.stats['generic_alias_recall'] += 1
+            if a[0] == 'ok':
+                self.alias_funcs[fname] += 1
+        return a, None
 
     def q_mcall(self, cname, meth, oe):
         o = self.obj(oe)
@@ -515,7 +543,7 @@ class Interp:
                 ob = self.defclass(op[1], op[2])
             elif k == 'deffunc':
                 try:
-                    self.deffunc(op[1], op[2], op[3] if len(op) > 3 else 0)
+                    self.deffunc(op[1], op[2], op[3] if len(op) > 3 else 0, op[4] if len(op) > 4 else None)
                     a = ['ok', 'decorated']
                 except Exception as ex:               # noqa: BLE001 - decoration-time failure is part of the world
                     a = ['exc', type(ex).__name__]
@@ -524,11 +552,13 @@ class Interp:
             elif k in ('sub', 'thsub', 'theq'):
                 a, ob = self.q_th(k, op[1], op[2])
             elif k == 'call':
-                a, ob = self.q_call(op[1], op[2])
+                a, ob = self.q_call(op[1], op[2], op[3] if len(op) > 3 else None)
             elif k == 'defself':
                 a, ob = self.defself(op[1], op[2], op[3] if len(op) > 3 else 0)
             elif k == 'defscope':
                 self.defscope(op[1], op[2])
+            elif k == 'defgen':
+                self.defgen(op[1])
             elif k == 'mcall':
                 a, ob = self.q_mcall(op[1], op[2], op[3])
             elif k == 'sbear':
